@@ -42,6 +42,8 @@ struct ProcState {
   // slice accumulation
   std::string slice_op;  // json fields of the operation completed (or begun, for condvar waits) in this slice
   std::vector<std::string> obs;
+  bool next_spur = false;  // the next operation is the load of a spuriously failing weak CAS
+  bool op_spur = false;
   std::vector<std::string> fences;  // orders of the atomic_thread_fence calls of this slice, in program order
   std::uintptr_t stack_probe = 0;
   int allocs = 0;
@@ -87,6 +89,7 @@ struct Global {
   std::vector<std::string> replay_names;
   std::size_t replay_pos = 0;
   bool diverged = false;
+  bool force_weak = false;
   std::string diverge_msg;
   std::mt19937_64 rng;
   std::vector<std::string> lines;  // event lines of this execution
@@ -350,6 +353,7 @@ std::string OpJson(ProcState* st, const Op& op, bool begin_only, std::uint64_t a
   } else {
     s += ",\"old\":\"-\",\"new\":\"-\",\"arg\":\"-\",\"exp\":\"-\",\"ok\":true";
   }
+  s += std::string(",\"spur\":") + (st->op_spur ? "true" : "false");
   s += ",\"ord\":" + JsonStr(OrderName(op.order));
   s += ",\"ford\":" + JsonStr(OrderName(op.failure));
   return s;
@@ -368,7 +372,12 @@ int Choose(int n, const std::vector<std::string>& names, const char* tag) {
     // replay by alternative name; only scheduling choices consume names
     if (std::strcmp(tag, "sched") == 0) {
       if (g.replay_pos < g.replay_names.size()) {
-        auto& want = g.replay_names[g.replay_pos++];
+        auto want = g.replay_names[g.replay_pos++];
+        g.force_weak = false;
+        if (!want.empty() && want.back() == '^') {  // during this slice a weak CAS fails spuriously
+          want.pop_back();
+          g.force_weak = true;
+        }
         auto it = std::find(names.begin(), names.end(), want);
         if (it == names.end()) {
           if (!g.diverged) {
@@ -403,7 +412,10 @@ int Choose(int n, const std::vector<std::string>& names, const char* tag) {
 
 // ------------------------------------------------------------------------------------------------ hooks
 
+const void* g_last_obj = nullptr;
+
 void HookBeginOp(const Op& op) {
+  g_last_obj = op.obj;
   auto* st = Cur();
   if (st == nullptr || !st->tracked || st->ambient != 0) {
     if (st != nullptr) {
@@ -420,6 +432,8 @@ void HookBeginOp(const Op& op) {
   st->op = op;
   st->phase = 0;
   st->api_at_op = st->api;
+  st->op_spur = st->next_spur;
+  st->next_spur = false;
 }
 
 bool HookInject() {
@@ -585,9 +599,18 @@ int HookWeakFail() {
   }
   HookGuard hg;
   static const std::vector<std::string> kNames{"ok", "spurious"};
+  if (g.mode == Mode::kReplay && !g.replay_names.empty()) {
+    if (g.force_weak) {
+      g.force_weak = false;
+      --g.weak_budget;
+      st->next_spur = true;
+      return 1;
+    }
+    return 0;
+  }
   if (Choose(2, kNames, "weak") == 1) {
     --g.weak_budget;
-    st->obs.push_back("{\"k\":\"spurious\",\"v\":\"\"}");
+    st->next_spur = true;
     return 1;
   }
   return 0;
@@ -817,6 +840,10 @@ void NameRange(const void* addr, std::size_t size, const std::string& name) {
 void NameOffsetAlias(long off, const std::string& alias) {
   HookGuard hg;
   G().off_alias[off] = alias;
+}
+
+const void* LastOpObject() {
+  return g_last_obj;
 }
 
 std::string NameOf(std::uintptr_t addr) {
